@@ -513,3 +513,11 @@ Section ContextV1.
     now apply app_eq_len in Q.
   Qed.
 End ContextV1.
+
+(** ... in both directions: too short AND too long (a surplus response is not silently dropped) *)
+Theorem rep_extract_wrong_length_none_ : forall {K : FieldOps} (P : proto K) ss c zs,
+  List.length zs <> List.length ss -> p_extract (rep_proto P) ss c zs = None.
+Proof.
+  intros K P ss c zs Hne. destruct (p_extract (rep_proto P) ss c zs) eqn:E; [|reflexivity].
+  exfalso. apply Hne. eapply rep_extract_length_; eauto.
+Qed.
